@@ -170,10 +170,14 @@ var ghostBigOf func(b []byte) int
 // restorable, must COVER every tracked shard: a shard that is tracked but not assigned (a child
 // waiting for its parent) is found again after a restore only if its id lies after the last
 // assigned id, where discovery resumes (B). B does not hold - see known_findings.json.
+// (What is persisted as the place where discovery resumes is the tracker's MONOTONE last-assigned
+// id - not the highest id among the shards that happen to be assigned at the moment: a finished
+// shard would be listed, and handed out, again after a restore.)
 //@ func SourceSplitter.Checkpoint
 //@   property C16
 //@   nosafety
 //@   requires s.splitTracker != nil
+//@   atcall Marshal: arg0.(*kinesispb.SplitterState).LastAssignedShardId == s.splitTracker.LastAssignedSplitID && same(arg0.(*kinesispb.SplitterState).AssignedShards, pbShards)
 //@   ensures forall(func(k string) bool { return isKnown(s.splitTracker, k) ==> has(s.splitTracker.assignedSplits, k) || k > s.splitTracker.LastAssignedSplitID })
 //@   loop 0:
 //@     invariant len(pbShards) == len(splits) && forall(0, idx_, func(i int) bool { return pbShards[i] != nil && pbShards[i].ShardId == splits[i].ShardID && same(pbShards[i].ParentShardIds, splits[i].ParentIDs) })
@@ -198,3 +202,12 @@ var ghostBigOf func(b []byte) int
 //@               exists(0, idx_, idx_-1, func(a int) bool { return coll_[a].ShardID == pendingShards[j].ShardID }) &&
 //@               forall(0, j, func(i int) bool { return pendingShards[i].ShardID != pendingShards[j].ShardID }) })
 //@     invariant forall(0, len(coll_), func(a int) bool { return forall(0, a, func(b int) bool { return coll_[b].ShardID < coll_[a].ShardID }) })
+
+// A shard discovered from the service remembers BOTH its parents (a shard created by a merge has an
+// adjacent parent as well): it is handed out only after every parent has finished.
+//@ func newSourceSplitterShardFromKinesis
+//@   property C16
+//@   nosafety
+//@   ensures shard.ParentShardId != nil ==> exists(0, len(result.ParentIDs), func(j int) bool { return result.ParentIDs[j] == *shard.ParentShardId })
+//@   ensures shard.AdjacentParentShardId != nil ==> exists(0, len(result.ParentIDs), func(j int) bool { return result.ParentIDs[j] == *shard.AdjacentParentShardId })
+//@   ensures result.ShardID == *shard.ShardId
